@@ -1140,6 +1140,31 @@ fn parse_obs<S: Sch>(text: &str, json: bool, out: &mut String) {
     }
 }
 
+fn parse_doc<S: Sch>(doc: &str, out: &mut String) {
+    let r = guard(|| serde_json::from_str::<Enr<S::K>>(doc));
+    match r {
+        None => writeln!(out, "out res=panic").unwrap(),
+        Some(Err(_)) => writeln!(out, "out res=err").unwrap(),
+        Some(Ok(e)) => {
+            writeln!(out, "out res=ok").unwrap();
+            out.push_str(&rec_line(&e));
+            out.push('\n');
+        }
+    }
+}
+
+/// an arbitrary JSON document through `serde_json::from_str`
+pub fn parse_doc_under(scheme: &str, doc: &str, out: &mut String) {
+    match scheme {
+        "k256" => parse_doc::<SK256>(doc, out),
+        "libsecp" => parse_doc::<SLibsecp>(doc, out),
+        "ed" => parse_doc::<SEd>(doc, out),
+        "comb" => parse_doc::<SComb>(doc, out),
+        "toy" => parse_doc::<SToy>(doc, out),
+        _ => {}
+    }
+}
+
 pub fn parse_under(scheme: &str, text: &str, json: bool, out: &mut String) {
     match scheme {
         "k256" => parse_obs::<SK256>(text, json, out),
@@ -1255,6 +1280,53 @@ pub fn gen_txt(rng: &mut Rng, thorough: bool, out: &mut String) {
         } else {
             vec!["ed", "comb"]
         };
+        // JSON documents around the text: every spelling serde_json reads as the same string is
+        // accepted, everything else is not
+        {
+            let scheme = *rng.pick(&schemes);
+            let esc_at = rng.range(0, good.len() as u64 - 1) as usize;
+            let esc_one = |upper: bool| {
+                let c = good.as_bytes()[esc_at] as u32;
+                let e = if upper { format!("\\u{:04X}", c) } else { format!("\\u{:04x}", c) };
+                format!("\"{}{}{}\"", &good[..esc_at], e, &good[esc_at + 1..])
+            };
+            let all_esc: String = good.bytes().map(|c| format!("\\u{:04x}", c as u32)).collect();
+            let docs: Vec<(&str, &'static str, String)> = vec![
+                ("d-plain", "accept", format!("\"{good}\"")),
+                ("d-escape-one", "accept", esc_one(false)),
+                ("d-escape-one-upper", "accept", esc_one(true)),
+                ("d-escape-all", "accept", format!("\"{all_esc}\"")),
+                ("d-whitespace", "accept", format!(" \t\n\"{good}\"\r\n ")),
+                ("d-noprefix", "accept", format!("\"{body}\"")),
+                ("d-trailing", "reject", format!("\"{good}\"x")),
+                ("d-two-strings", "reject", format!("\"{good}\" \"{good}\"")),
+                ("d-no-quotes", "reject", good.clone()),
+                ("d-unterminated", "reject", format!("\"{good}")),
+                ("d-array", "reject", format!("[\"{good}\"]")),
+                ("d-object", "reject", format!("{{\"enr\":\"{good}\"}}")),
+                ("d-null", "reject", "null".into()),
+                ("d-number", "reject", "12345".into()),
+                ("d-control-inside", "reject", format!("\"{}\n{}\"", &good[..esc_at], &good[esc_at..])),
+                ("d-escaped-newline", "reject", format!("\"{}\\n{}\"", &good[..esc_at], &good[esc_at..])),
+                ("d-bad-escape", "reject", format!("\"\\x65{}\"", &good[1..])),
+                ("d-lone-surrogate", "reject", format!("\"\\ud800{good}\"")),
+                ("d-surrogate-pair", "reject", format!("\"\\ud83d\\ude00{good}\"")),
+                ("d-nul", "reject", format!("\"{good}\\u0000\"")),
+                ("d-escaped-slash-prefix", "reject", format!("\"\\/{good}\"")),
+            ];
+            for (tag, expect, doc) in docs {
+                writeln!(
+                    out,
+                    "jsondoc scheme={} tag={} expect={} doc={}",
+                    scheme,
+                    tag,
+                    expect,
+                    hx(doc.as_bytes())
+                )
+                .unwrap();
+                parse_doc_under(scheme, &doc, out);
+            }
+        }
         for (tag, expect, text) in v {
             let scheme = *rng.pick(&schemes);
             writeln!(
